@@ -10,7 +10,7 @@ CONSTANTS
     Profiles = "good"
     Bug = "none"
 INVARIANTS
-    TypeOK RdependsMirrorsDepends SetEmptyAtExit NoGhostInGoodCase
+    TypeOK LoadingIsInnermostCtor RdependsMirrorsDepends SetEmptyAtExit NoGhostInGoodCase
     B_CtorOnce B_DepsConstructedFirst B_PostInitOnce B_PostInitAfterDeps B_DtorBeforeDeps
     B_StartsComplete B_StopsClean B_AbortsWithError B_NeverRunsPartial
 ACTION_CONSTRAINT EmitCase
